@@ -101,6 +101,14 @@ def Try(e, ty):
     return Node("try", ty, e=e)                     # e? on Option
 
 
+def StrLit(text):
+    return Node("strlit", "String", text=text)
+
+
+def FStr(parts):
+    return Node("fstr", "String", parts=parts)        # parts: python str (literal text) or expression nodes
+
+
 def ListLit(ty, elems):
     return Node("listlit", ty, elems=elems)          # ty = ("list", T)
 
@@ -191,6 +199,9 @@ def src(n, ind=1):
     if k == "host":
         return f"{n.name}({', '.join(src(a, ind) for a in n.args)})"
     if k == "ret":
+        if n.e is not None and n.e.kind in ("if", "block", "match", "while"):
+            # `return if c {..} else {..}` is not accepted by the parser ("expected } but got 'if'"); parenthesised it is
+            return f"return ({src(n.e, ind)})"
         return "return" + (f" {src(n.e, ind)}" if n.e is not None else "")
     if k == "while":
         return f"while {src(n.c, ind)} {block_src(n.body, ind)}"
@@ -216,6 +227,10 @@ def src(n, ind=1):
         return f"{src(n.e, ind)}?"
     if k == "rawsrc":
         return n.text
+    if k == "strlit":
+        return '"' + n.text + '"'
+    if k == "fstr":
+        return 'f"' + "".join(p if isinstance(p, str) else "{" + src(p, ind) + "}" for p in n.parts) + '"'
     if k == "listlit":
         return "[" + ", ".join(src(e, ind) for e in n.elems) + "]"
     if k == "for":
@@ -262,6 +277,89 @@ def program_src(p):
 # ---------------------------------------------------------------------------- reference semantics
 class Undefined(Exception):
     """the language leaves this input undefined (integer division by zero / MIN / -1): excluded from C01, decided by C10"""
+
+
+def norm_content(parts):
+    out = []
+    for p in parts:
+        if isinstance(p, str) and out and isinstance(out[-1], str):
+            out[-1] += p
+        elif p != "":
+            out.append(p)
+    return out
+
+
+class StringShape(Exception):
+    pass
+
+
+def _num_matches_text(part, digits):
+    """z3 Bool: to_string(part) == digits (a maximal run of [-0-9] / 'true' / 'false' cut out of a literal)"""
+    _, ty, term = part
+    if ty == "bool":
+        if digits not in ("true", "false"):
+            return z3.BoolVal(False)
+        return term if digits == "true" else z3.Not(term)
+    if not digits or digits in ("-",) or (digits.lstrip("-").startswith("0") and digits.lstrip("-") != "0") or digits == "-0" or "-" in digits[1:]:
+        return z3.BoolVal(False)
+    v = int(digits)
+    w, sg = INTS[ty]
+    lo, hi = (-(1 << (w - 1)), (1 << (w - 1)) - 1) if sg else (0, (1 << w) - 1)
+    if not (lo <= v <= hi):
+        return z3.BoolVal(False)
+    return term == z3.BitVecVal(v, w)
+
+
+def _match_text(parts, text):
+    """z3 Bool: the content `parts` (literal text and number parts) renders exactly to the literal `text`"""
+    conj, pos = [], 0
+    for k, p in enumerate(parts):
+        if isinstance(p, str):
+            if not text.startswith(p, pos):
+                return z3.BoolVal(False)
+            pos += len(p)
+        else:
+            nxt = parts[k + 1] if k + 1 < len(parts) else None
+            if nxt is not None and not isinstance(nxt, str):
+                raise StringShape()          # two adjacent numbers: where the first ends is ambiguous
+            if p[1] == "bool":
+                run = "true" if text.startswith("true", pos) else ("false" if text.startswith("false", pos) else "")
+            else:
+                j = pos
+                while j < len(text) and (text[j].isdigit() or (j == pos and text[j] == "-")):
+                    j += 1
+                run = text[pos:j]
+                if nxt is not None and nxt[:1].isdigit():
+                    raise StringShape()      # the literal after the number starts with a digit: ambiguous
+            conj.append(_num_matches_text(p, run))
+            pos += len(run)
+    if pos != len(text):
+        return z3.BoolVal(False)
+    return z3.And(conj) if conj else z3.BoolVal(True)
+
+
+def content_equal(a, b):
+    """z3 Bool: two string contents (literal text and to_string(number) parts) are equal"""
+    a, b = norm_content(list(a)), norm_content(list(b))
+    a_text, b_text = all(isinstance(p, str) for p in a), all(isinstance(p, str) for p in b)
+    if a_text and b_text:
+        return z3.BoolVal(a == b)
+    if b_text:
+        return _match_text(a, "".join(b))
+    if a_text:
+        return _match_text(b, "".join(a))
+    if len(a) != len(b):
+        raise StringShape()
+    conj = []
+    for x, y in zip(a, b):
+        if isinstance(x, str) or isinstance(y, str):
+            if x != y:
+                raise StringShape()
+        else:
+            if x[1] != y[1]:
+                raise StringShape()
+            conj.append(x[2] == y[2])
+    return z3.And(conj) if conj else z3.BoolVal(True)
 
 
 class ListVal:
@@ -381,6 +479,13 @@ class Ref:
 
     def binop(self, op, a, b, ty):
         """ty = operand type"""
+        if ty == "String":
+            if op == "+":
+                return norm_content(list(a) + list(b))
+            if op in ("==", "!="):
+                r = content_equal(a, b)
+                return z3.simplify(r if op == "==" else z3.Not(r))
+            raise ValueError(op)
         if op in ("+", "-", "*"):
             if is_float(ty):
                 return {"+": z3.fpAdd, "-": z3.fpSub, "*": z3.fpMul}[op](RNE, a, b)
@@ -433,6 +538,8 @@ class Ref:
             return z3.Or(cases) if cases else z3.BoolVal(False)
         if ty == "Tracked":
             return a["val"] == b["val"]
+        if ty == "String":
+            return content_equal(a, b)
         return a == b
 
     def tag_is(self, v, i):
@@ -528,6 +635,17 @@ class Ref:
                         continue
                 return self.ev(body, env + [scope], depth)
             raise PathCut("non-exhaustive match (generator bug)")
+        if k == "strlit":
+            return [n.text] if n.text else []
+        if k == "fstr":
+            parts = []
+            for p in n.parts:
+                if isinstance(p, str):
+                    parts.append(p)
+                else:
+                    v = self.ev(p, env, depth)
+                    parts += list(v) if p.ty == "String" else [("num", p.ty, v)]
+            return norm_content(parts)
         if k == "listlit":
             l = ListVal()
             for e in n.elems:
@@ -565,6 +683,9 @@ class Ref:
         raise ValueError(k)
 
     def host(self, name, args, n):
+        if name in ("emit_str", "pure_str"):
+            self.trace.append((name, [("str", tuple(args[0]))]))
+            return list(args[0]) if name == "pure_str" else None
         if name.startswith("emit_") or name == "emit7":
             self.trace.append((name, args))
             return None
